@@ -21,6 +21,7 @@ var sortNames = map[string]codec.MapSortMode{"none": codec.MapSortMode_None, "le
 func observe(n datamodel.Node, sortmode string, links bool) string {
 	var sb strings.Builder
 	var buf bytes.Buffer
+	before := lib.Dump(n)
 	err := lib.Safely(func() error {
 		return dagcbor.EncodeOptions{AllowLinks: links, MapSortMode: sortNames[sortmode]}.Encode(n, &buf)
 	})
@@ -56,6 +57,13 @@ func observe(n datamodel.Node, sortmode string, links bool) string {
 		}
 	} else {
 		sb.WriteString("-")
+	}
+	// encoding must not change the node it encodes (a finished node is immutable)
+	after := ""
+	if lib.Safely(func() error { after = lib.Dump(n); return nil }) != nil || after != before {
+		sb.WriteString("|src:changed")
+	} else {
+		sb.WriteString("|src:same")
 	}
 	return sb.String()
 }
